@@ -32,6 +32,14 @@ def probe_inputs(seed=0, n=40):
                 muts = list(V.field_mutants(ver, p, T.parse(ver, s)[1], rng))
                 vec.append((ver, rng.choice(muts)[1]))
         # 3.0 / 3.1 twins and cross-version strings
+    # strings lacking several mandatory metrics / with several faults (error MESSAGES are part
+    # of the observation: they are what the CLI prints)
+    for ver in T.VERSIONS:
+        p0 = T.PREFIXES[ver][-1]
+        mand = [m + ":" + T.VALUES[ver][m][0] for m in T.MANDATORY[ver]]
+        opt = [m + ":" + T.VALUES[ver][m][1] for m in T.OPTIONAL[ver][:3]]
+        for body in (mand[:2], mand[-3:], opt, mand[:1] + opt, mand[1:-1], [mand[2]]):
+            vec.append((ver, p0 + "/".join(body)))
     twins = []
     for ver, s in vec:
         if s.startswith("CVSS:3.0/"):
